@@ -234,6 +234,11 @@ public:
            for (size_t q = 0; q < n; q++) in.push_back((char)(n > 100 ? 32 + r.below(95) : r.chance(1, 4) ? r.below(256) : 1 + r.below(20))); }
     inv["stdin_hex"] = sim::toHex(in);
     if (r.chance(1, 12)) { inv["inject_open_failure"] = true; }   // recorded, never judged
+    // The output path may be a pipe (a FIFO, /dev/stdout into a pipeline): bytes go out in order and the
+    // stream cannot be positioned.
+    if ((tool == "xcmp" || tool == "hexasm") && listing.empty() && !outName.empty() && outName != srcName && origin.compare(0, 3, "big") != 0 && r.chance(1, 20)) {
+      Json f = Json::object(); f["op"] = "pipe"; f["path"] = outName; ops.push(f);
+    }
     if ((tool == "xrun" || tool == "hexsim") && r.chance(1, 12)) inv["stdin_closed"] = true;   // started with descriptor 0 closed
     // Simulated time: the simulator's cycle counter starts just below a power of two (only without a
     // cycle limit, whose meaning is tied to the count).
@@ -484,6 +489,7 @@ public:
     for (int q = 0; q < 8; q++) { siminPresentNow[q] = false; siminNow[q].clear(); }
     std::string nearCopyPath; uint64_t nearCopy = 0;
     std::string srcName, text, origin; bool haveSource = false;
+    std::string pipePath;
     const Json *invp = nullptr;
     for (auto &op : plan.at("ops").a) {
       std::string k = op.getStr("op");
@@ -494,8 +500,10 @@ public:
         else o.count("fault.prefile_" + op.getStr("role", "other"));
         if (op.has("near_copy")) { nearCopyPath = op.getStr("path"); nearCopy = op.getU64("near_copy"); }
         if (op.getStr("role") == "simin") { std::string pth = op.getStr("path"); if (pth.size() == 6 && pth.compare(0, 5, "simin") == 0 && pth[5] >= '0' && pth[5] <= '7') { siminPresentNow[pth[5] - '0'] = true; siminNow[pth[5] - '0'] = content; } }
-      } else if (k == "tool") invp = &op;
+      } else if (k == "pipe") { pipePath = op.getStr("path"); }
+      else if (k == "tool") invp = &op;
     }
+
     if (!invp) { o.note = "skipped:no_invocation"; return; }
     const Json &inv = *invp;
     std::string tool = inv.getStr("name");
@@ -610,7 +618,9 @@ public:
     }
     bool injected = inv.getBool("inject_open_failure") && tool != "xrun";
     if (injected) sim::fs::failOpen(effOut, 13 /*EACCES*/, true);
-    obsSuppress = injected;          // an injected fault has no counterpart in the real-executable layer
+    bool toPipe = !pipePath.empty() && pipePath == effOut && tool != "xrun";
+    obsSuppress = injected || toPipe;          // an injected fault / a pipe has no counterpart in the real-executable layer
+    if (toPipe) { sim::fs::remove(pipePath); sim::fs::makePipe(pipePath); o.count("fault.output_path_is_a_pipe"); }     // here: reference runs reset the file table
     Inv r = invoke(tool, args, input);
     obsSuppress = false;
     o.nontrivial = true;
@@ -629,6 +639,23 @@ public:
     }
     if (r.t.kind == sim::Trapped::CRASHED && r.t.signal == SIGALRM) { o.note = "skipped:watchdog"; o.count("probe.watchdog_hit"); return; }   // wall-clock never decides a verdict
     if (r.t.kind == sim::Trapped::CRASHED) { o.violate("crashed", tool + " " + r.t.str() + " [source '" + clip(srcText, 60) + "']", "crashed:" + tool); return; }
+
+    if (toPipe && listing.empty()) {
+      // Same contract, the file being a pipe: status 0 and exactly the binary's bytes through the pipe
+      // for an accepted source; non-zero, a diagnostic and not a byte through it otherwise.
+      std::string got = sim::fs::drainPipe(pipePath);
+      if (inputPresent && lr.accepted) {
+        if (r.status() != 0) o.violate("contract_status", tool + " exits " + std::to_string(r.status()) + " on an accepted source when the output is a pipe (" + clip(r.err, 50) + ")", "contract_status:" + tool + ":pipe_accepted_nonzero");
+        else if (got != lr.bytes) {
+          size_t at = 0; while (at < got.size() && at < lr.bytes.size() && got[at] == lr.bytes[at]) at++;
+          o.violate("contract_file", tool + " exits 0 but the pipe named by the output option received " + std::to_string(got.size()) + " bytes that differ from the binary (" + std::to_string(lr.bytes.size()) + " bytes) at byte " + std::to_string(at), "contract_file:" + tool + ":pipe_output_wrong");
+        }
+      } else {
+        if (r.status() == 0) o.violate("contract_status", tool + " exits 0 on a " + srcClass + " source (output is a pipe)", "contract_status:" + tool + ":" + srcClass + "_zero");
+        else if (!got.empty()) o.violate("contract_file", tool + " sent " + std::to_string(got.size()) + " bytes into the output pipe although the source was rejected", "contract_file:" + tool + ":pipe_bytes_on_error");
+      }
+      return;
+    }
 
     // Listing-only invocations: status alone.
     if (!listing.empty() && tool != "xrun") {
